@@ -30,7 +30,7 @@ type cliCase struct {
 }
 
 // space- and colon-free (the output parser splits locations at those), legal on Linux and accepted by the go command
-var oddDirs = []string{"", "", "", "-100%", "-My%20Projects", "-a%sb%d", "-%v", "-%!x(MISSING)", "-ünï", "-a+b=c", "-~t", "-x,y", "-[1]", "-{a}", "-q'r", "-#h"}
+var oddDirs = []string{"", "", "", "-100%", "-My%20Projects", "-a%sb%d", "-%v", "-%!x(MISSING)", "-ünï", "-a+b=c", "-~t", "-a+b", "-v1.2_x", "-x,y", "-[1]", "-{a}", "-q'r", "-#h"}
 
 func init() {
 	register("C16", prop{
@@ -102,7 +102,14 @@ func pickInt(rt *rapid.T, label string, xs []int) int {
 
 // cliEnvLayout places the workspace according to the layout and returns (root, cwd, targets, gopath).
 func cliLayout(env *gen.Env, cc *cliCase, id int) (ws *e2e.Workspace, root, cwd string, targets []string, gopath string) {
-	base := filepath.Join(env.Work, fmt.Sprintf("c16-%d%s", id, cc.OddDir))
+	odd := cc.OddDir
+	if cc.Layout == "nested-repeat" && !importPathSafe(odd) {
+		// this layout repeats the working directory's path below the module root, so the name becomes
+		// an import path element; the go command refuses elements with other characters (the package
+		// is then not loaded at all, which is not the command's doing)
+		odd = ""
+	}
+	base := filepath.Join(env.Work, fmt.Sprintf("c16-%d%s", id, odd))
 	os.RemoveAll(base)
 	ws = &e2e.Workspace{Module: cc.WS.Module, Files: append([]e2e.File{}, cc.WS.Files...)}
 	dirs := cc.WS.PackageDirs()
@@ -161,6 +168,19 @@ func cliLayout(env *gen.Env, cc *cliCase, id int) (ws *e2e.Workspace, root, cwd 
 		gopath = filepath.Join(base, "gopath")
 	}
 	return
+}
+
+// importPathSafe: golang.org/x/mod/module.CheckImportPath accepts ASCII letters, digits and - . _ ~ +
+func importPathSafe(s string) bool {
+	for _, r := range s {
+		switch {
+		case r >= 'a' && r <= 'z', r >= 'A' && r <= 'Z', r >= '0' && r <= '9':
+		case strings.ContainsRune("-._~+", r):
+		default:
+			return false
+		}
+	}
+	return true
 }
 
 var c16Counter int
